@@ -40,3 +40,6 @@ pub trait TapeImpl {
     /// Rewinds tape content to the beginning
     fn rewind(&mut self) -> Result<()>;
 }
+
+#[cfg(kani)]
+pub(crate) use tap::verif_hooks as verif_hooks_tap;
